@@ -18,6 +18,9 @@ mod encoder;
 mod prefix_int;
 mod prefix_string;
 
+#[cfg(hyperium_h3_verif)]
+pub mod verif_hooks;
+
 #[cfg(test)]
 mod tests;
 
